@@ -237,3 +237,9 @@ for _k, _extra in {
     "C17": "Input data loaded from files; loaded datasets must name the file inside the folder they were loaded from.",
 }.items():
     CHECKS[_k]["text"] += " " + _extra
+for _k, _extra in {
+    "C08": "A second relation on the same target; zero / only / relation probes are also judged by C03's result identities (what is reported is what the fit used).",
+    "C14": "A three-species full model with rotated label order: coefficients must be the identity by label.",
+    "C19": "Explicit formats with extension-less paths.",
+}.items():
+    CHECKS[_k]["text"] += " " + _extra
